@@ -26,6 +26,7 @@ def errCode : Err → String
   | .penaltyNotElapsed => Generated.Err.bandtss_ErrPenaltyDurationNotElapsed
   | .memberNotFound => Generated.Err.bandtss_ErrMemberNotFound
   | .invalidCoins => "sdk/10"
+  | .createFailed => Generated.Err.tss_ErrCreateSigningFailed
 
 def coinsJson (s : State) (c : Coins) : Json := jl (s.denoms.map fun d => jn (c d))
 def sortNat (l : List Nat) : List Nat := l.mergeSort (fun a b => decide (a ≤ b))
@@ -72,6 +73,9 @@ def implSigning (out : Json) (sid : Nat) : Option (Nat × Nat) :=
   | .ok x => some x
   | .error _ => none
 
+/-- available members whose queue holds a malformed pair -/
+def badHolders (s : State) : List Nat := (available s).filter fun m => (s.queues m).any (s.badTokens.contains ·)
+
 def step (st : St) (j : Json) : Except String (St × Json × List Fired) := do
   let op ← jstr j "op"
   let out := (j.getObjVal? "out").toOption.getD Json.null
@@ -80,14 +84,19 @@ def step (st : St) (j : Json) : Except String (St × Json × List Fired) := do
   let (s', e) ← match op with
     | "submitDE" => do pure (enqueue s (← jnat j "member") (← jnat j "k"))
     | "resetDE" => do pure (resetDE s (← jnat j "member"), Err.ok)
+    | "badDE" => do pure (enqueueBad s (← jnat j "member"))
     | "request" => do
-      let committee := (implAssigned out (s.count + 1) 1).map (·.1)
+      -- a creation the implementation rolled back leaves no committee to read: offer the model the members
+      -- holding a malformed pair (it fails only if one of them is at the head of an available member's queue)
+      let committee := if (jstr out "err").toOption.getD "" == "" then (implAssigned out (s.count + 1) 1).map (·.1) else badHolders s
       pure (request s (100 + (← jnat j "sender")) (← jbool j "authority") (← parseCoins s j "feeLimit") committee (← jint j "height"))
     | "submit" => do pure (submit s (← jnat j "sid") (← jnat j "member") (← jbool j "signerOk") (← jbool j "valid"))
     | "endBlock" => do
       let committee : Nat → List Nat := fun sid =>
         match s.signings sid with
-        | some sg => (implAssigned out sid (sg.attempt + 1)).map (·.1)
+        | some sg =>
+          let a := (implAssigned out sid (sg.attempt + 1)).map (·.1)
+          if a.isEmpty then badHolders s else a
         | none => []
       pure (endBlock s committee (← jint j "height") (← jint j "now"), Err.ok)
     | "activate" => do pure (activate s (← jnat j "member") (← jint j "now"))
@@ -121,6 +130,12 @@ def step (st : St) (j : Json) : Except String (St × Json × List Fired) := do
   let histAll := (s.assignedLog.map (·.2.2.2)) ++ allAssigned
   if queued.any (histAll.contains ·) then
     fired := fired ++ [{ name := "assigned_de_still_queued", detail := jl (queued.map jn) }]
+  -- a pair leaves a queue only by being assigned (or by the member's own reset)
+  if op != "resetDE" then
+    let before := s.members.flatMap fun m => s.queues m
+    let gone := before.filter fun t => !queued.contains t && !histAll.contains t
+    if !gone.isEmpty then
+      fired := fired ++ [{ name := "de_left_queue_without_assignment", detail := jl (gone.map jn) }]
   if op == "submitDE" && ierr == "" then
     let m := (jnat j "member").toOption.getD 0
     let q := (jnatList (imembers.getD (m - 1) Json.null) "q").toOption.getD []
@@ -173,6 +188,21 @@ def step (st : St) (j : Json) : Except String (St × Json × List Fired) := do
           fired := fired ++ [{ name := "member_penalised_without_idle_timeout", detail := mkObj [("member", jn m)] }]
       if !wasActive && nowActive then
         fired := fired ++ [{ name := "member_activated_by_endblock", detail := mkObj [("member", jn m)] }]
+    -- every idle assigned member of an attempt the specification times out in this block is deactivated
+    for (sid, att, m) in s'.penalised.drop s.penalised.length do
+      let im := imembers.getD (s.members.idxOf m) Json.null
+      if (jbool im "bActive").toOption.getD false then
+        fired := fired ++ [{ name := "idle_member_not_penalised", detail := mkObj [("sid", jn sid), ("attempt", jn att), ("member", jn m)] }]
+    -- the outcome the specification's end-block gives each signing (SUCCESS when all assigned submitted,
+    -- retry with attempt+1, FALLEN) is the implementation's
+    for i in List.range s.count do
+      let sid := i + 1
+      match s'.signings sid, implSigning out sid with
+      | some ms, some (st2, att2) =>
+        if ms.status ≠ st2 ∨ ms.attempt ≠ att2 then
+          fired := fired ++ [{ name := "signing_outcome_differs_from_spec", detail := mkObj [("sid", jn sid), ("specStatus", jn ms.status),
+            ("specAttempt", jn ms.attempt), ("status", jn st2), ("attempt", jn att2)] }]
+      | _, _ => pure ()
     -- C13: escrow pays exactly fee_per_signer to each assigned member of completed current-group signings
     let iescrow := (jnatList out "escrow").toOption.getD []
     let mescrow := s'.denoms.map fun d => s'.escrow d
